@@ -133,7 +133,7 @@ def run_case(rac, hist, trig):
     exp = orc.expected()
     hs = "; ".join(G.opstr(o) for o in hist)
     ts = G.opstr(trig)
-    k1 = orc.sibling_feed() or G.declared_cycle(w0.m)
+    k1 = orc.sibling_feed() or w0.k1_seen or G.declared_cycle(w0.m)
     for k in range(len(T)):
         w, _ = build(hist)
         key = f"fault at store {k} of [{ts}] after [{hs}]"
